@@ -50,6 +50,36 @@ TOKENS = ["var", "function", "return", "if", "else", "for", "while", "do", "swit
           "=", "==", "===", "!=", "+", "-", "*", "/", "%", "**", "++", "--", "&&", "||", "!", "~", "&", "|", "^", "<<", ">>", ">>>", "<", ">", "<=", ">=", "?", ":", "=>", "+=", "-=", "\n", " ", "//c\n", "/*c*/"]
 
 
+def _literal_stress(r):
+    """literals at and beyond the representable ranges: digit runs, exponents, escapes, counted quantifiers"""
+    hexd = "0123456789abcdefABCDEF"
+    kind = r.randrange(9)
+    big = r.choice([1, 2, 5, 15, 16, 17, 20, 40, 310, 400, 1100])
+    if kind == 0:
+        return "0x" + "".join(r.choice(hexd) for _ in range(big))
+    if kind == 1:
+        return r.choice(["0b", "0o", ""]) + "".join(r.choice("01") for _ in range(big)) + r.choice(["", ".5", "e5", "e400", "e-400", "e", "."])
+    if kind == 2:
+        return str(r.randrange(1, 99)) + "e" + r.choice(["", "+", "-"]) + "9" * r.choice([1, 3, 4, 20])
+    if kind == 3:
+        body = "".join(r.choice(hexd + "_- g") for _ in range(r.choice([0, 1, 4, 5, 6, 7, 20])))
+        return r.choice(["'\\u{%s}'", '"\\u%s"', "'\\x%s'", "/\\u{%s}/u", "/\\u%s/", "'a\\u{%s}b'.length"]).replace("\\\\", "\\") % body
+    if kind == 4:
+        n = r.choice(["0", "1", "9" * 3, "9" * 11, "9" * 20, "1" + "0" * 30])
+        m = r.choice(["", ",", "," + n, ",0"])
+        return r.choice(["/a{%s%s}/.test('aaa')", "new RegExp('(?:a|b){%s%s}')", "'aaa'.replace(/a{%s%s}/g, 'x')", "/(a{%s%s}){%s%s}/"]).replace("%s%s", n + m)
+    if kind == 5:
+        recv = r.choice(["NaN", "Infinity", "(-Infinity)", "(5e-324)", "(1.7976931348623157e308)", "(-0)", "(0.1)", "(1e21)", "(-1e-7)", "(2**53)", "(255.5)"])
+        meth = r.choice(["toFixed", "toString", "toExponential", "toPrecision"])
+        arg = r.choice(["", "0", "1", "2", "10", "16", "36", "100", "101", "-1", "NaN", "undefined", "1e21", "'3'", "2.9"])
+        return f"{recv}.{meth}({arg})"
+    if kind == 6:
+        return r.choice(["'%s'", '"%s"', "`%s`"]) % "".join(r.choice(["\\", "\\n", "\\0", "\\x4", "\\u12", "\\u{", "a", "\n", "${", "}", "'", '"']) for _ in range(r.randint(1, 6)))
+    if kind == 7:
+        return "[" + ",".join(r.choice(["", "1", "[]", "{}", "...x"]) for _ in range(big % 50)) + "]" + r.choice(["", ".length", "[0]", "[1e21]", "['x']"])
+    return r.choice(["(", "[", "{a:", "f(", "-", "!", "typeof ", "x=", "a?b:", "new "]) * min(big, 30) + "1"      # C04 scope: nesting depth <= 30
+
+
 def _fuzz_chunk(args):
     seed, n, corpus = args
     import signal
@@ -64,7 +94,9 @@ def _fuzz_chunk(args):
     signal.signal(signal.SIGALRM, boom)
     for i in range(n):
         k = r.random()
-        if k < 0.2:
+        if k < 0.12:
+            src = _literal_stress(r)
+        elif k < 0.2:
             src = "".join(r.choice("abc(){}[];=+-*/<>!&|?:.,'\"\\\n 0129_$`^%~#@\t\r é😀") for _ in range(r.randint(1, 40)))
         elif k < 0.5:
             src = " ".join(r.choice(TOKENS) for _ in range(r.randint(1, 25)))
@@ -103,7 +135,8 @@ def _fuzz_chunk(args):
     return cnt, bad
 
 
-ARGS = ["", "undefined", "null", "NaN", "Infinity", "-Infinity", "-1", "0", "0.5", "300", "'5'", "'abc'", "({})", "[]", "[1,2]", "(function(){})", "true", "({valueOf:function(){return 2}})"]
+ARGS = ["", "undefined", "null", "NaN", "Infinity", "-Infinity", "-1", "0", "-0", "0.5", "300", "1e21", "5e-324", "2**53", "'5'", "'abc'", "'\\u00e9'", "({})", "[]", "[1,2]", "[[]]",
+        "(function(){})", "true", "({valueOf:function(){return 2}})"]
 CALLS = (["Math." + m for m in "abs floor ceil round trunc min max pow sqrt sin cos tan asin acos atan atan2 log exp sign imul fround clz32 hypot cbrt log2 log10 expm1 log1p".split()]
          + ["parseInt", "parseFloat", "isNaN", "isFinite", "Number", "String", "Boolean", "Array", "Object", "RegExp", "Error", "Number.isInteger", "Number.parseFloat", "String.fromCharCode",
             "JSON.parse", "JSON.stringify", "Object.keys", "Object.values", "Object.entries", "Object.assign", "Object.create", "Object.getPrototypeOf", "Object.setPrototypeOf",
@@ -111,7 +144,10 @@ CALLS = (["Math." + m for m in "abs floor ceil round trunc min max pow sqrt sin 
             "new Float32Array", "new ArrayBuffer", "new Function", "eval", "Date.now"]
          + ["'abc'." + m for m in "charAt charCodeAt indexOf lastIndexOf substring slice split toLowerCase trim concat repeat startsWith endsWith includes replace replaceAll match search".split()]
          + ["[3,1,2]." + m for m in "push pop shift unshift join map filter reduce reduceRight forEach indexOf lastIndexOf find findIndex some every concat slice splice reverse includes sort".split()]
-         + ["(255)." + m for m in "toFixed toString toExponential toPrecision valueOf".split()] + ["/a/g.test", "/a/g.exec", "(function(){}).call", "(function(){}).apply", "(function(){}).bind",
+         + [recv + "." + m for recv in ("(255)", "NaN", "Infinity", "(-Infinity)", "(5e-324)", "(1.7976931348623157e308)", "(-0)", "(0.1)", "(1e21)", "(-2.5)")
+            for m in "toFixed toString toExponential toPrecision valueOf".split()]
+         + ["''." + m for m in "charAt charCodeAt indexOf slice split repeat padStart padEnd at codePointAt normalize localeCompare".split()]
+         + ["[]." + m for m in "pop shift reduce reduceRight join sort at flat fill".split()] + ["/a/g.test", "/a/g.exec", "(function(){}).call", "(function(){}).apply", "(function(){}).bind",
             "new Uint8Array(4).set", "new Uint8Array(4).subarray", "new Uint8Array(4).join", "Object.prototype.hasOwnProperty.call", "Object.prototype.toString.call"])
 
 
